@@ -106,6 +106,28 @@ func c05(r *rand.Rand, tier string, tr *trace.Buf, extra map[string]interface{})
 		tr.Emit(check("other-key", msg, sig, &pk2, true, true))
 		osig, _ := d2.Sign(msg)
 		tr.Emit(check("other-keys-signature", msg, osig, &pk, true, true))
+		// the caller's arrays changed IN PLACE between calls (same pointer, same slice): the verdict is a
+		// function of the contents at the call, not of the address or of what an earlier call saw there
+		{
+			p := pk
+			m := dup(msg)
+			tr.Emit(check("inplace-genuine", m, sig, &p, false, true))
+			off, bit := r.Intn(len(p)), byte(1)<<uint(r.Intn(8))
+			p[off] ^= bit
+			tr.Emit(check("inplace-key-changed", m, sig, &p, true, true))
+			p[off] ^= bit
+			tr.Emit(check("inplace-key-restored", m, sig, &p, false, true))
+			p = pk2
+			tr.Emit(check("inplace-key-replaced", m, sig, &p, true, true))
+			p = pk
+			if len(m) > 0 {
+				mo := r.Intn(len(m))
+				m[mo] ^= bit
+				tr.Emit(check("inplace-message-changed", m, sig, &p, true, true))
+				m[mo] ^= bit
+			}
+			tr.Emit(check("inplace-restored", m, sig, &p, false, true))
+		}
 
 		// every single-bit flip of the signature (quick: c, hint section, one bit per z coefficient)
 		flipSig := func(off int) {
